@@ -222,6 +222,35 @@ def duplication_observations(prg, inputs):
     return obs, other
 
 
+def domain_observations(prg, inputs):
+    """programs produced by the passes that request domain predicates, each with the map predicate -> `__dom_` predicate
+    read off the heads of the result"""
+    from ngo.minmax_aggregates import MinMaxAggregator
+    from ngo.symmetry import SymmetryTranslator
+    from ngo.sum_aggregates import SumAggregator
+    import copy
+    obs = []
+    for cls in (MinMaxAggregator, SymmetryTranslator, SumAggregator):
+        try:
+            p = copy.deepcopy(list(prg))
+            res = cls(p, inputs).execute(p)
+        except Exception:  # noqa
+            continue
+        heads = {}
+        for s in res:
+            hp = plain_head_pred(s)
+            if hp and hp[0].startswith("__dom_") and not hp[0].startswith("__dom___"):
+                heads[hp] = True
+        if not heads:
+            continue
+        try:
+            pairs = " ".join(f"(({ser.q(n[len('__dom_'):])} {k}) {ser.q(n)})" for n, k in sorted(heads))
+            obs.append((cls.__name__, ser.prog(apart_prog(res)), pairs))
+        except Exception:  # noqa
+            pass
+    return obs
+
+
 def ser_try(s):
     try:
         return ser.stm(s)
@@ -302,8 +331,8 @@ def leanio_show(x) -> str:
 
 def make_texts(rng, n_gen, corpus_limit=None):
     H = corpus.harvest()
-    pref = [x for x in H if x[0] in ("symmetry", "unused", "regression", "projection", "literal_duplication")]
-    rest = [x for x in H if x[0] not in ("symmetry", "unused", "regression", "projection", "literal_duplication")]
+    pref = [x for x in H if x[0] in ("symmetry", "unused", "regression", "projection", "literal_duplication", "dependency", "minmax_aggregates", "sum_aggregates")]
+    rest = [x for x in H if x[0] not in ("symmetry", "unused", "regression", "projection", "literal_duplication", "dependency", "minmax_aggregates", "sum_aggregates")]
     if corpus_limit is not None:
         rest = rng.sample(rest, min(len(rest), corpus_limit))
         pref = rng.sample(pref, min(len(pref), 2 * corpus_limit))
@@ -316,8 +345,10 @@ def make_texts(rng, n_gen, corpus_limit=None):
             texts.append(("tgen:unused", tgen.gen_unused(rng)))
         elif r < 0.65:
             texts.append(("tgen:projection", tgen.gen_projection(rng)))
-        elif r < 0.8:
+        elif r < 0.75:
             texts.append(("tgen:duplication", tgen.gen_duplication(rng)))
+        elif r < 0.9:
+            texts.append(("tgen:domains", rng.choice([tgen.gen_minmax, tgen.gen_sumchains, tgen.gen_symmetry])(rng)))
         elif r < 0.85:
             texts.append(("mutated", gen.mutate(rng, rng.choice(pref or H)[1])))
         else:
@@ -355,6 +386,9 @@ def run(rng, n_gen, corpus_limit=None) -> dict:
         for before, aux, upd, ctxp in projection_observations(_preprocess(_parse(text)), inputs):
             reqs.append(f'(sem_split_cond {before} {aux} {upd} {ctxp})')
             meta.append(("projection", text, (aux, upd), 1))
+        for cname, ptext, pairs in domain_observations(_preprocess(_parse(text)), inputs):
+            reqs.append(f'(sem_dom_cond {ptext} ({pairs}))')
+            meta.append(("domains", text, cname, 1))
         dobs, dother = duplication_observations(_preprocess(_parse(text)), inputs)
         hist["duplication: factored sets whose places of use are not in the shape of the theorem"] += dother
         for aux, pairs, ctxp in dobs:
